@@ -154,11 +154,20 @@ class Gen:
         if size == 0:
             return []
         cuts = sorted(set(r.randint(0, size) for _ in range(r.randint(1, max_fields + 1))) | {0, size})
+        if size >= 8 and self.chance(0.3):
+            # carrier boundaries: one field exactly as wide as a Rust integer, or one bit off (the smallest carrier that
+            # fits changes exactly there), at any start; the rest of the set around it
+            w = self.pick([x for x in (7, 8, 9, 15, 16, 17, 31, 32, 33, 63, 64, 64, 65, 127, 128) if x <= size])
+            s0 = r.randint(0, size - w)
+            cuts = sorted({0, s0, s0 + w, size} | {c for c in cuts if c < s0 or c > s0 + w})
+            wide_at = s0
+        else:
+            wide_at = None
         fields = []
         names = r.sample(FIELD_NAMES, min(len(cuts), len(FIELD_NAMES)))
         for i in range(len(cuts) - 1):
             s, e = cuts[i], cuts[i + 1]
-            if e - s > 64 and self.chance(0.7):
+            if e - s > 64 and self.chance(0.7) and s != wide_at:
                 e = s + r.randint(1, 64)
             if self.chance(0.8):
                 base = None
